@@ -238,6 +238,39 @@ Section Dec.
               end
     end.
 
+  (* The same loop driven by the binary count, LAZY in the count: the number of evaluation steps
+     is the number of elements actually decoded (plus log n), so that a garbage count read from the
+     buffer (a decoder that reads a prefix of the wrong width) fails at the end of the buffer instead
+     of first building a unary number of that size.  Proofs/DecRepeat.v: dec_repeat_n f n = dec_repeat f (N.to_nat n). *)
+  Definition rstate := (list value * list byte)%type.
+  Definition rstep (f : list byte -> dres (value * list byte)) (s : rstate) : dres rstate :=
+    match f (snd s) with
+    | DOk (v, rd') => DOk (v :: fst s, rd')
+    | DErr => DErr
+    | DCrash => DCrash
+    end.
+  Definition rbind (a : dres rstate) (k : rstate -> dres rstate) : dres rstate :=
+    match a with DOk s => k s | DErr => DErr | DCrash => DCrash end.
+  Fixpoint iter_pos (g : rstate -> dres rstate) (p : positive) (s : rstate) : dres rstate :=
+    match p with
+    | xH => g s
+    | xO q => rbind (iter_pos g q s) (iter_pos g q)
+    | xI q => rbind (g s) (fun s1 => rbind (iter_pos g q s1) (iter_pos g q))
+    end.
+  Definition dec_repeat_n (f : list byte -> dres (value * list byte)) (n : N) (rd : list byte) (acc : list value)
+    : dres (list value * list byte) :=
+    match n with
+    | N0 => DOk (rev acc, rd)
+    | Npos p => match iter_pos (rstep f) p (acc, rd) with
+                | DOk (acc', rd') => DOk (rev acc', rd')
+                | DErr => DErr
+                | DCrash => DCrash
+                end
+    end.
+  (* take with a binary length: fails without converting when the buffer is too short *)
+  Definition take_n (n : N) (l : list byte) : option (list byte * list byte) :=
+    if N.ltb (N.of_nat (length l)) n then None else take (N.to_nat n) l.
+
   (* a length prefix read the Java way: as a signed value, the body only "if (len > 0)" *)
   Definition guard_skips (sguard : bool) (pw : nat) (n : N) : bool :=
     andb sguard (N.leb (pow256 pw / 2) n).
@@ -254,14 +287,14 @@ Section Dec.
         match dec_int pw ple rd with
         | Some (n, rd') =>
             if guard_skips sg pw n then DOk (VStr [], rd')
-            else match take (N.to_nat n) rd' with Some (h, rd'') => DOk (VStr h, rd'') | None => DCrash end
+            else match take_n n rd' with Some (h, rd'') => DOk (VStr h, rd'') | None => DCrash end
         | None => DCrash
         end
     | DList pw ple sg elem =>
         match dec_int pw ple rd with
         | Some (n, rd') =>
             if guard_skips sg pw n then DOk (VList [], rd')
-            else match dec_repeat (dec_elem elem members) (N.to_nat n) rd' [] with
+            else match dec_repeat_n (dec_elem elem members) n rd' [] with
                  | DOk (l, rd'') => DOk (VList l, rd'')
                  | DErr => DErr
                  | DCrash => DCrash
